@@ -263,7 +263,7 @@ def check_prove_grid(prop, tier, repo, verif):
     res = {'unit': 'bounded:prove_grid', 'engine': 'bounded run of the real prover and verifier (tools/provegrid)', 'status': 'ok',
            'failures': [], 'undecided': [], 'bounded': True,
            'bound': ('straight-line programs of 54..66 and 120..128 swaps (trace lengths around 2^6 and 2^7, exact-fit included), a loop, deep outputs, a call; all four option sets on two programs'
-                     if tier == 'thorough' else 'straight-line programs of 58..62 and 124 swaps (exact-fit 2^k - 1 included), a loop, deep outputs, a call; default options') + '; prove, verify, byte round trip, reported security level'}
+                     if tier == 'thorough' else 'straight-line programs of 58..62 and 124 swaps (exact-fit 2^k - 1 included), a loop, deep outputs, a call, chiplet-dominated traces (hperm + mem_load) with every chiplets length in 2^6 - 3 .. 2^6 + 2; default options') + '; prove, verify, byte round trip, reported security level'}
     binp, err = build_tool(repo, verif, 'provegrid')
     if binp is None:
         res['status'] = 'undecided'
@@ -706,4 +706,45 @@ def check_asm_history(prop, tier, repo, verif):
         res['status'] = 'fail'
     res['wall_s'] = round(time.time() - t0, 1)
     res['checker_cmd'] = 'tools/asmprobe (built against the current tree)'
+    return res
+
+
+def check_flow_reference(prop, tier, repo, verif):
+    t0 = time.time()
+    nrand = 24000 if tier == 'thorough' else 3000
+    res = {'unit': 'bounded:flow_reference', 'engine': 'bounded run of the real assembler + processor against a reference interpreter of a MASM subset written from the docs (tools/flowprobe, release build)', 'status': 'ok',
+           'failures': [], 'undecided': [], 'bounded': True,
+           'bound': 'about %d generated programs: all nestings of if / if-else / explicit empty else / while / repeat / exec to depth 3 with 0..3 blocks per body, block counts 1..9 in six positional patterns (as loop body, branch, procedure body), procedures with 0..4 locals nested three deep, all 144 pairs of colliding imported procedure names, %d seeded random programs to depth 4; condition values 0, 1, 2, p-1 from advice / stack / literals at every decision point; 5-6 input sets each; full final stack and success / failure compared; exec vs. the textually inlined twin' % (14962 + nrand, nrand)}
+    binp, err = build_tool(repo, verif, 'flowprobe', release=True)
+    if binp is None:
+        res['status'] = 'undecided'
+        res['undecided'].append('flowprobe does not build against the current tree: ' + err)
+        return res
+    env = dict(os.environ)
+    env['RANDOM_COUNT'] = str(nrand)
+    p = subprocess.run([binp], stdout=subprocess.PIPE, stderr=subprocess.PIPE, text=True, env=env)
+    m = re.search(r'SUMMARY programs=(\d+) executions=(\d+) inline_executions=(\d+) mismatches=(\d+) inline_mismatches=(\d+)', p.stdout)
+    if not m:
+        res['status'] = 'undecided'
+        res['undecided'].append('flowprobe gave no summary (panic?): ' + (p.stdout + p.stderr)[-500:])
+        return res
+    seen = set()
+    for ln in p.stdout.split('\n'):
+        mm = re.match(r'FAILCASE (\S+) group=(\S+) :: (.*?) :: (.*)', ln)
+        if not mm:
+            continue
+        kind, group, src, rest = mm.groups()
+        if kind in seen:
+            continue
+        seen.add(kind)
+        cnt = m.group(4) if kind == 'vm-vs-reference' else m.group(5)
+        res['failures'].append({'obligation': '%s/bounded/flow_reference#%s' % (prop, kind), 'message': 'control flow / inlining: %s mismatches (%s executions deviate)' % (kind, cnt),
+                                'rendered': ln[:2000], 'origins': ['assembly/src/assembler/mod.rs', 'processor/src/lib.rs', 'processor/src/decoder/mod.rs'],
+                                'failing_input': {'program': src[:1200], 'inputs_and_results': rest[:600], 'group': group, 'cmd': 'RANDOM_COUNT=%d .cache/target/release/flowprobe' % nrand}})
+    if (int(m.group(4)) or int(m.group(5))) and not res['failures']:
+        res['failures'].append({'obligation': '%s/bounded/flow_reference#mismatch' % prop, 'message': 'mismatches reported without a case line', 'rendered': p.stdout[-800:], 'origins': []})
+    if res['failures']:
+        res['status'] = 'fail'
+    res['wall_s'] = round(time.time() - t0, 1)
+    res['checker_cmd'] = 'RANDOM_COUNT=%d tools/flowprobe (built against the current tree): %s programs, %s executions' % (nrand, m.group(1), m.group(2))
     return res
